@@ -34,13 +34,13 @@ func TestMain(m *testing.M) { cl.ChildIfRequested(); vlib.Main(m, prop) }
 // the replayable case: tables + optional SYN flood + hostile frames, then the probe
 
 type frameCase struct {
-	Tables string   `json:"tables"` // arp | gateway | gateway-noarp | noroute | empty
-	Flood  int      `json:"flood,omitempty"`
+	Tables string `json:"tables"` // arp | gateway | gateway-noarp | noroute | empty
+	Flood  int    `json:"flood,omitempty"`
 	// FloodKind: "distinct" (default) = every SYN from another address/port pair;
 	// "same" = one SYN retransmitted (the listener allocates a state per SYN either way)
-	FloodKind string `json:"flood_kind,omitempty"`
-	Frames []string `json:"frames_hex"`
-	Note   string   `json:"note,omitempty"`
+	FloodKind string   `json:"flood_kind,omitempty"`
+	Frames    []string `json:"frames_hex"`
+	Note      string   `json:"note,omitempty"`
 }
 
 var (
@@ -900,7 +900,7 @@ func TestSynFlood(t *testing.T) {
 		floods = []fl{{70000, "same"}, {70000, "distinct"}, {65536, "same"}, {65535, "same"}, {65534, "same"}, {20000, "distinct"}, {5000, "distinct"}, {5000, "same"}, {100, "distinct"}, {1, "same"}}
 	}
 	for i, f := range floods {
-		if i%sn != si {
+		if (i+1)%sn != si { // shard 0 runs TestTables
 			continue
 		}
 		n := f.n
